@@ -94,7 +94,7 @@ pub fn is_helper_exe() -> bool {
 
 pub fn helper_main() -> ! {
     unsafe {
-        libc::alarm(8);
+        libc::alarm(30);
         let argv: Vec<Vec<u8>> = std::env::args_os().map(|a| a.into_vec()).collect();
         let mut env: Vec<Vec<u8>> = Vec::new();
         let mut p = environ;
